@@ -53,6 +53,15 @@ theorem saveIfRan_mem (st : Store) (j : Job) (o : Outcome) (t : Tid) (v : Val)
     · exact Or.inl h
   · exact Or.inl h
 
+theorem saveBegin_mem (st : Store) (j : Job) (o : Outcome) (t : Tid) (v : Val)
+    (h : (t, v) ∈ saveBegin p st j o) : (t, v) ∈ st := by
+  unfold saveBegin at h
+  split at h
+  · split at h
+    · exact (List.mem_filter.mp h).1
+    · exact h
+  · exact h
+
 theorem saveAll_mem (ts : TS) : ∀ (fin : List Job) (st : Store) (t : Tid) (v : Val),
     (t, v) ∈ saveAll p ts fin st →
     (t, v) ∈ st ∨ ∃ j ∈ fin, j.tid = t ∧ p.cacheable (p.ty t) = true ∧ j.useCache = false ∧
@@ -71,7 +80,7 @@ theorem saveAll_mem (ts : TS) : ∀ (fin : List Job) (st : Store) (t : Tid) (v :
 
 /-! ## which primitive touches the store / the serial runner's locals -/
 def Prim.touchesStore : Prim → Bool
-  | .consumeResults _ | .serialSave | .popDeque | .serialRun => true
+  | .consumeResults _ | .serialSaveBegin | .serialSaveEnd | .popDeque | .serialRun => true
   | _ => false
 
 theorem applyPrim_store_cur (q : Prim) (s : IS) (h : q.touchesStore = false) :
@@ -155,15 +164,34 @@ theorem applyPrim_SI (store0 : Store) (q : Prim) (s : IS) (h : SI p store0 s) :
           subst hj
           obtain ⟨he, hb⟩ := runOutcome_ok_nocache _ _ j v hu ho
           exact ⟨_, by rw [he]; simp, hb⟩
-    case serialSave =>
+    case serialSaveBegin =>
       cases hc : s.cur with
       | none =>
-        have : stepPrim cfg p Prim.serialSave s = s := by simp [stepPrim, hc]
+        have : stepPrim cfg p Prim.serialSaveBegin s = s := by simp [stepPrim, hc]
         rw [this]; exact h
       | some j =>
         cases hco : s.curOut with
         | none =>
-          have : stepPrim cfg p Prim.serialSave s = s := by simp [stepPrim, hc, hco]
+          have : stepPrim cfg p Prim.serialSaveBegin s = s := by simp [stepPrim, hc, hco]
+          rw [this]; exact h
+        | some o =>
+          refine ⟨?_, ?_⟩
+          · intro t v hv
+            simp only [stepPrim, hc, hco] at hv ⊢
+            exact h.1 t v (saveBegin_mem _ _ _ t v hv)
+          · intro j' v hj ho hu
+            simp only [stepPrim, hc, hco, Option.some.injEq] at hj ho ⊢
+            subst hj; subst ho
+            exact h.2 j v hc hco hu
+    case serialSaveEnd =>
+      cases hc : s.cur with
+      | none =>
+        have : stepPrim cfg p Prim.serialSaveEnd s = s := by simp [stepPrim, hc]
+        rw [this]; exact h
+      | some j =>
+        cases hco : s.curOut with
+        | none =>
+          have : stepPrim cfg p Prim.serialSaveEnd s = s := by simp [stepPrim, hc, hco]
           rw [this]; exact h
         | some o =>
           refine ⟨?_, ?_⟩
